@@ -97,6 +97,32 @@ def line_end(text, pos):
     return len(text) if j < 0 else j + 1
 
 
+def split_args(args):
+    """split directive arguments on whitespace, keeping `<Trait for Type>::name` together"""
+    out, i, n = [], 0, len(args)
+    while i < n:
+        if args[i].isspace():
+            i += 1
+            continue
+        j = i
+        if args[i] == '<':
+            depth = 0
+            while j < n:
+                if args[j] == '<':
+                    depth += 1
+                elif args[j] == '>':
+                    depth -= 1
+                    if depth == 0:
+                        j += 1
+                        break
+                j += 1
+        while j < n and not args[j].isspace():
+            j += 1
+        out.append(args[i:j])
+        i = j
+    return out
+
+
 def norm_ws(s):
     return re.sub(r'\s+', ' ', s).strip()
 
